@@ -11,10 +11,11 @@ import (
 	"github.com/golang/protobuf/proto"
 
 	"github.com/xuperchain/xupercore/bcs/ledger/xledger/state/utxo/txhash"
-	"github.com/xuperchain/xupercore/bcs/ledger/xledger/state/xmodel"
 	txn "github.com/xuperchain/xupercore/bcs/ledger/xledger/tx"
 	pb "github.com/xuperchain/xupercore/bcs/ledger/xledger/xldgpb"
+	"github.com/xuperchain/xupercore/kernel/common/xcontext"
 	"github.com/xuperchain/xupercore/kernel/contract"
+	"github.com/xuperchain/xupercore/lib/timer"
 	"github.com/xuperchain/xupercore/protos"
 )
 
@@ -202,13 +203,20 @@ func (w *World) FormatBlock(proposer string, parent *pb.InternalBlock, txs []*pb
 	return w.Ledger.FormatMinerBlock(list, []byte(k.Address), k.Priv, ts, 0, 0, parent.Blockid, 0, w.State.GetTotal(), nil, nil, height)
 }
 
-// Submit does what Chain.SubmitTx does: VerifyTx then DoTx, looking only at errors.
+// Submit runs the real Chain.SubmitTx (kernel/engines/xuperos/chain.go) on this
+// node, without its 120 s recently-posted-txid guard.
 func (w *World) Submit(tx *pb.Transaction) error {
-	_, err := w.State.VerifyTx(tx)
-	if err != nil {
+	if err := w.Node.VSubmit(w.xctx(), tx); err != nil {
 		return err
 	}
-	return w.State.DoTx(tx)
+	return nil
+}
+
+func (w *World) xctx() *xcontext.BaseCtx {
+	c := &xcontext.BaseCtx{}
+	c.XLog = w.Log
+	c.Timer = timer.NewXTimer()
+	return c
 }
 
 // SubmitStrict is Submit but also fails when VerifyTx returns false without error.
@@ -346,62 +354,17 @@ type PreExecResult struct {
 	Responses   []*contract.Response
 }
 
-// PreExec runs the PreExec algorithm of Chain.PreExec (kernel/engines/xuperos/chain.go)
-// on this world's state and contract manager.
+// PreExec runs the real Chain.PreExec (kernel/engines/xuperos/chain.go) on this node.
 func (w *World) PreExec(reqs []*protos.InvokeRequest, initiator string, authRequire []string) (*PreExecResult, error) {
-	st := w.State
-	reserved, err := st.GetReservedContractRequests(reqs, true)
+	resp, err := w.Node.PreExec(w.xctx(), reqs, initiator, authRequire)
 	if err != nil {
 		return nil, err
 	}
-	transName, transAmount, err := txn.ParseContractTransferRequest(reqs)
-	if err != nil {
-		return nil, err
+	res := &PreExecResult{GasUsed: resp.GasUsed, Requests: resp.Requests, Inputs: resp.Inputs, Outputs: resp.Outputs,
+		UtxoInputs: resp.UtxoInputs, UtxoOutputs: resp.UtxoOutputs}
+	for _, r := range resp.Responses {
+		res.Responses = append(res.Responses, &contract.Response{Status: int(r.Status), Message: r.Message, Body: r.Body})
 	}
-	reqs = append(reserved, reqs...)
-	sb, err := w.Chain.Contract.NewStateSandbox(&contract.SandboxConfig{XMReader: st.CreateXMReader(), UTXOReader: st.CreateUtxoReader()})
-	if err != nil {
-		return nil, err
-	}
-	cfg := &contract.ContextConfig{State: sb, Initiator: initiator, AuthRequire: authRequire, ResourceLimits: contract.MaxLimits}
-	gasPrice := st.GetMeta().GetGasPrice()
-	res := &PreExecResult{}
-	for i, req := range reqs {
-		cfg.Module = req.ModuleName
-		cfg.ContractName = req.ContractName
-		if transName == req.ContractName {
-			cfg.TransferAmount = transAmount.String()
-		} else {
-			cfg.TransferAmount = ""
-		}
-		c, err := w.Chain.Contract.NewContext(cfg)
-		if err != nil {
-			return nil, err
-		}
-		resp, err := c.Invoke(req.MethodName, req.Args)
-		if err != nil {
-			c.Release()
-			return nil, err
-		}
-		used := c.ResourceUsed()
-		if i >= len(reserved) {
-			res.GasUsed += used.TotalGas(gasPrice)
-		}
-		r := *req
-		r.ResourceLimits = contract.ToPbLimits(used)
-		res.Requests = append(res.Requests, &r)
-		res.Responses = append(res.Responses, resp)
-		c.Release()
-	}
-	if err := sb.Flush(); err != nil {
-		return nil, err
-	}
-	rw := sb.RWSet()
-	u := sb.UTXORWSet()
-	res.Inputs = xmodel.GetTxInputs(rw.RSet)
-	res.Outputs = xmodel.GetTxOutputs(rw.WSet)
-	res.UtxoInputs = u.Rset
-	res.UtxoOutputs = u.WSet
 	return res, nil
 }
 
